@@ -86,9 +86,20 @@ def correspondence(ctx, broken_obligations=()):
         raise
     cov.update(meta)
     cov.update(S.recase_stage(ctx, PID, KINDS))
-    cov["annot"] = annot_stage(ctx)
-    cov["deftree"] = deftree_stage(ctx)
-    cov["wstree"] = wstree_stage(ctx)
+    # the three tree-level stages: a disagreement the oracle accepts (no failing input) is kept pending while the later
+    # stages look for a concrete input on which the property's own statement fails
+    pending = None
+    for name, stage in (("annot", annot_stage), ("deftree", deftree_stage), ("wstree", wstree_stage)):
+        try:
+            cov[name] = stage(ctx)
+        except core.Violation as v:
+            if getattr(v, "found_input", True):
+                v.coverage = dict(cov, **(getattr(v, "coverage", {}) or {}))
+                raise
+            pending = pending or v
+    if pending is not None:
+        pending.coverage = dict(cov, **(getattr(pending, "coverage", {}) or {}))
+        raise pending
     return cov
 
 
